@@ -14,12 +14,12 @@ const WORDS: &[&str] = &[
     "Door", "Lock", "Scale", "Batch", "Stage", "Zone", "Cell", "Line", "Unit", "Node", "Link", "Port", "Slot",
 ];
 
-struct Names {
-    used: Vec<String>,
+pub(super) struct Names {
+    pub(super) used: Vec<String>,
 }
 
 impl Names {
-    fn fresh(&mut self, rng: &mut Rng, prefix: &str) -> String {
+    pub(super) fn fresh(&mut self, rng: &mut Rng, prefix: &str) -> String {
         loop {
             let w1 = *rng.pick(WORDS);
             let name = match rng.below(4) {
@@ -1239,12 +1239,29 @@ pub fn gen_case(rng: &mut Rng, cycles: usize) -> CaseInput {
             programs.push(text);
         }
     }
+    // two further families, generated from a stream of their own (forked without advancing the main one):
+    // namespaces + USING (import order), and named arguments with side effects / faults (evaluation order)
+    let mut rx = Rng::new(rng.clone().next() ^ 0x00C0_5003);
+    let mut tags: Vec<String> = Vec::new();
+    let ns_unit = if rx.chance(1, 2) { Some(super::gen_order::gen_namespaces(&mut rx, &mut names)) } else { None };
+    let arg_unit = if rx.chance(1, 2) { Some(super::gen_order::gen_arg_order(&mut rx, &mut names, cycles)) } else { None };
+    if let Some(u) = &ns_unit {
+        prog_names.extend(u.programs.iter().cloned());
+        tags.extend(u.tags.iter().cloned());
+    }
+    if let Some(u) = &arg_unit {
+        prog_names.push(u.program.clone());
+        tags.extend(u.tags.iter().cloned());
+    }
     // configuration: tasks with intervals / priorities, some programs in the background
     let mut conf = String::new();
     let cname = names.fresh(rng, "Cfg");
     let _ = writeln!(conf, "CONFIGURATION {cname}");
     conf.push_str(&g.decl);
     conf.push_str(&g.retain_decl);
+    if let Some(u) = &arg_unit {
+        conf.push_str(&u.globals);
+    }
     let use_resource = rng.chance(1, 3);
     if use_resource {
         let _ = writeln!(conf, "RESOURCE {} ON CPU", names.fresh(rng, "Res"));
@@ -1282,6 +1299,13 @@ pub fn gen_case(rng: &mut Rng, cycles: usize) -> CaseInput {
     ];
     for (i, p) in programs.into_iter().enumerate() {
         units.push((format!("{top}/programs/prog{i}.st"), p));
+    }
+    if let Some(u) = ns_unit {
+        units.push((format!("{top}/lib/spaces.st"), u.libs));
+        units.push((format!("{top}/programs/spaces_users.st"), u.users));
+    }
+    if let Some(u) = arg_unit {
+        units.push((format!("{top}/programs/calls.st"), u.text));
     }
     units.push(("config.st".into(), conf));
     let files: Vec<(String, String)> = match layout {
@@ -1331,5 +1355,6 @@ pub fn gen_case(rng: &mut Rng, cycles: usize) -> CaseInput {
         direct_outputs: g.direct_outputs.clone(),
         const_ranges: g.const_ranges.clone(),
         trace,
+        tags,
     }
 }
